@@ -95,16 +95,16 @@ Fixpoint adj_up_b (fuel : nat) (val : binary64) (ex : Z) : Z :=
   | O => ex
   | S f => if (ex <? 63) && negb (b64_lt val (b64_pow2 (4 * ex))) then adj_up_b f val (ex + 1) else ex
   end.
+(** the part after `if val < 0.0 { top = 0x80; val = -val; }`: [s] is the sign taken off, [val] = |x| *)
+Definition flocq_encode_body (est : Z) (s : bool) (val : binary64) : Z :=
+  let ex := adj_up_b adj_fuel val (adj_down_b adj_fuel val (clampZ (-64) 63 est)) in
+  (* `(val * 16_f64.powi(14 - exponent)).round() as u64` *)
+  let mant := Z.min (Z.max 0 (b64_trunc (b64_round (bmul val (b64_pow2 (4 * (14 - ex))))))) (two64 - 1) in
+  ((if s then 128 else 0) + (64 + ex)) * two56 + mant mod two56.
 Definition flocq_encode_with (est : Z) (x : binary64) : Z :=
   match x with
-  | B754_finite _ _ s _ _ _ =>
-    (* `if val < 0.0 { top = 0x80; val = -val; }` *)
-    let val := if s then b64_opp x else x in
-    let ex := adj_up_b adj_fuel val (adj_down_b adj_fuel val (clampZ (-64) 63 est)) in
-    (* `(val * 16_f64.powi(14 - exponent)).round() as u64` *)
-    let mant := Z.min (Z.max 0 (b64_trunc (b64_round (bmul val (b64_pow2 (4 * (14 - ex))))))) (two64 - 1) in
-    ((if s then 128 else 0) + (64 + ex)) * two56 + mant mod two56
-  | _ => 0
+  | B754_finite _ _ s _ _ _ => flocq_encode_body est s (if s then b64_opp x else x)
+  | _ => 0     (* `if val == 0.0 { return 0; }`; NaN and infinities are outside the model *)
   end.
 
 (** * C12: layout21raw/src/geom.rs at the Flocq level: the same transcription as
@@ -158,6 +158,11 @@ Fixpoint chain_b (t : btransform) (chain : list fplacement) : option btransform 
     (outermost first), everything computed by Flocq; counterpart of [chain_image_f] *)
 Definition chain_image_b (chain : list fplacement) (v : Z * Z) : option (Z * Z) :=
   match chain_b identity_b chain with Some t => Some (apply_b t v) | None => None end.
+(** `Layout::flatten` at the Flocq level: the walk of Geom/Transform.v ([flatten_helper]) with the Flocq
+    cascade, from_instance and Point::transform; counterpart of [flatten_f] *)
+Definition flatten_helper_b (l : layout fplacement (Z * Z)) (t : btransform) :=
+  flatten_helper (fun p q => Some (cascade_b p q)) from_placement_b (fun t v => Some (apply_b t v)) l t.
+Definition flatten_b (l : layout fplacement (Z * Z)) := flatten_helper_b l identity_b.
 (** entrywise [repr] *)
 Definition trepr (tb : btransform) (t : ftransform) : Prop :=
   repr (a00 tb) (a00 t) /\ repr (a01 tb) (a01 t) /\ repr (a10 tb) (a10 t) /\ repr (a11 tb) (a11 t) /\
